@@ -16,6 +16,8 @@ def run_gotest(vc, scr, spec, res, prop_filter=None):
     for part in parts:
         if part.get("tiers") and tier not in part["tiers"]:
             continue
+        if part.get("cluster"):
+            continue
         pkg = part.get("pkg", spec.get("pkg"))
         race = part.get("race", spec.get("race", False))
         hook = part.get("overlay_hook", spec.get("overlay_hook"))
@@ -50,6 +52,31 @@ def run_gotest(vc, scr, spec, res, prop_filter=None):
             argv += part.get("args", [])
             c = vc.Child(argv, env, os.path.join(wd, "out.jsonl"), os.path.join(wd, "log.txt"), wd, timeout + 60)
             c.part = part
+            c.k = k
+            all_children.append(c)
+            idx += 1
+    # real-binary clusters (C05 harness B): the driver builds /repo's binary and the cluster program
+    for part in parts:
+        if not part.get("cluster") or (part.get("tiers") and tier not in part["tiers"]):
+            continue
+        race = part.get("race", {}).get(tier, False)
+        rbin = scr.path("robustirc" + (".race" if race else ""))
+        if not os.path.exists(rbin):
+            vc.build_binary(scr, ".", rbin, race=race, tags=None, overlay=False)
+        cbin = scr.path("cluster")
+        if not os.path.exists(cbin):
+            vc.build_binary(scr, ".", cbin, tags=None, overlay=False, cwd=os.path.join(HERE, "cluster"))
+        n = part.get("children", {}).get(tier, 1)
+        rounds = part.get("cases", {}).get(tier, 1)
+        timeout = part.get("timeout", {}).get(tier, 900)
+        for k in range(n):
+            wd = scr.path("child%d" % idx)
+            os.makedirs(wd, exist_ok=True)
+            env = vc.goenv({"TMPDIR": wd})
+            argv = [cbin, "-bin", rbin, "-dir", os.path.join(wd, "net"), "-seed", str(res.seed * 1000003 + k), "-rounds", str(rounds),
+                    "-base_port", str(23000 + (res.seed % 50) * 100 + idx * 10), "-out", os.path.join(wd, "out.jsonl")]
+            c = vc.Child(argv, env, os.path.join(wd, "out.jsonl"), os.path.join(wd, "log.txt"), wd, timeout)
+            c.part = dict(part, test="cluster")
             c.k = k
             all_children.append(c)
             idx += 1
@@ -501,13 +528,17 @@ register("C04", title="exactly-once, in-order resume", pkg="./internal/api",
 
 
 register("C05", title="acknowledged messages survive crashes and fail-over", pkg=".",
-         parts=[{"name": "main", "test": "^TestVerifC05A$", "children": {"quick": 8, "thorough": 16}, "cases": {"quick": 1, "thorough": 12}}],
+         parts=[{"name": "main", "test": "^TestVerifC05A$", "children": {"quick": 6, "thorough": 16}, "cases": {"quick": 1, "thorough": 12}},
+                {"cluster": True, "children": {"quick": 2, "thorough": 8}, "cases": {"quick": 1, "thorough": 5},
+                 "race": {"quick": False, "thorough": True}, "timeout": {"quick": 500, "thorough": 2400}}],
          timeout={"quick": 600, "thorough": 3000}, level="fault_enumeration", parallel=8,
          rule="harness A: a child process runs an in-process node (real stores on a persistent directory, real FSM, single-voter raft, real API on a fixed "
               "loopback address); 3 senders post uniquely numbered PRIVMSGs with fresh client message ids and retry the same id until acknowledged, 2 "
               "observers follow the stream with lastseen resumes, while the parent SIGKILLs and restarts the node at seeded moments (3-5 times per round, "
-              "sometimes right after a forced /snapshot). After the faults stop a sentinel is posted and every observer's stream is fetched from the start: "
-              "every acknowledged payload exactly once, unacknowledged at most once, per-sender order, live stream == fetched stream. evaluations = "
-              "(payload, observer) pairs judged; distinct = (kills, snapshots, open posts)",
+              "sometimes right after a forced /snapshot). harness B: three real robustirc binaries built from /repo on localhost (TLS, time safeguard on), the "
+              "same clients rotating over the nodes, seeded faults: SIGKILL of leader / follower / all nodes, SIGSTOP pauses, restarts, forced snapshots. "
+              "After the faults stop a sentinel is posted and every observer's stream is fetched from the start (B: from every node): every acknowledged "
+              "payload exactly once, unacknowledged at most once, per-sender order, identical sequences on all nodes (numeric 003 masked), live stream == "
+              "fetched stream. evaluations = (payload, observer, node) triples judged; distinct = fault-kind combinations / (kills, snapshots, open posts)",
          floor={"quick": 300, "thorough": 5000},
-         technique="client-side history checking (unique payloads, open operations kept open) under SIGKILL/restart fault injection")
+         technique="client-side history checking (unique payloads, open operations kept open) under SIGKILL/SIGSTOP/restart fault injection, single node and 3 real binaries")
